@@ -190,6 +190,21 @@ def run_tlc(workdir, module, cfg, workers=None, timeout=1800, beh_out=None, extr
     return res
 
 
+def run_tlc_expect(workdir, module, cfg, needles, what, timeout=900):
+    """A model run that MUST report a violation naming one of `needles` (vacuity self-tests: the model of the
+    behaviour before a fix, a deliberately wrong variant). Tried a second time with one worker before the check
+    gives up, and then the reason carries TLC's own output - a JVM that could not start on a busy machine is not
+    'the invariant has become vacuous'."""
+    last = None
+    for attempt, workers in enumerate((None, 1)):
+        r = run_tlc(workdir, module, cfg, workers=workers, timeout=timeout)
+        if any(any(n in e for n in needles) for e in r["errors"]):
+            return r
+        last = r
+        time.sleep(2)
+    raise Inconclusive(f"self-test: {what} (TLC rc={last['rc']}, errors {last['errors'][:3]}, {last['distinct']} states)\n" + "\n".join(last["out_tail"][-25:]))
+
+
 def tlc_ok(res, what):
     """TLC finished without any error (invariant violations are errors too)"""
     if res["errors"] or res["rc"] not in (0,):
